@@ -327,3 +327,20 @@ def _eval_bool(v, z, x0, y0):
             return None
         return (a and b) if v[1] == 'BitAnd' else (a or b)
     return None
+
+
+def import_into(ctx, rule, prefix='C14:'):
+    """Run the C14 obligations and record them in ctx.rep under `rule` (for properties that depend on the lattice map)."""
+    from ..harness import Report
+    sub = type('Ctx', (), {})()
+    sub.__dict__.update(ctx.__dict__)
+    sub.rep = Report('C14', ctx.tier)
+    run(sub)
+    for o in sub.rep.obligations:
+        if o['rule'] == 'R4':
+            continue
+        if o['ok']:
+            ctx.rep.ok(rule, prefix + o['instance'], o['construct'], o['why'])
+        else:
+            ctx.rep.fail(rule, prefix + o['instance'], o['construct'], o['why'], o['reason'])
+    ctx.rep.analysed |= sub.rep.analysed
